@@ -8,7 +8,7 @@ C02 and C10 theorems are about.
     upsert <scheme> <host> <path|-> [user=..] [query=..] [w=<int>]
     remove|weight <scheme> <host> <path|->
     servers | weights | next | adv <ns>
-    serve [cookie=<scheme>,<host>,<path|->] [mutate=host|path|scheme]
+    serve [cookie=<scheme>,<host>,<path|->] [mutate=host|path|scheme|all]
     rate <scheme> <host> <path|-> <num>/<den>        ready <scheme> <host> <path|-> 0|1
     race <pairs> <reqs>          serve-remove <scheme> <host> <path|->
     remove-serve <scheme> <host> <path|->            serve-serve            upsert … meterfail=1
@@ -153,6 +153,7 @@ def step (s : Sys) (f : List String) : Sys × String :=
       | some "host" => some (some .host)
       | some "path" => some (some .path)
       | some "scheme" => some (some .scheme)
+      | some "all" => some (some (.set ⟨"evil", "evil", "/evil", "evil", "evil=1"⟩))
       | some _ => none
     match cookie, mt with
     | some c, some m => doOp s (.serve c m)
